@@ -161,7 +161,8 @@ type zzvCase struct {
 }
 
 type zzvHVec struct {
-	C     zzvCase `json:"c"`
+	Prime *zzvCase `json:"prime"` // SEQ records: a request sent to the same (fresh) server before the judged one
+	C     zzvCase  `json:"c"`
 	Impl  string  `json:"impl"`
 	Final string  `json:"final"`
 	O     struct {
@@ -224,6 +225,14 @@ func zzvSpell(c zzvCase) (string, error) {
 		return "/health/.." + p, nil
 	case "ext":
 		return p + "x", nil
+	case "sfxpng":
+		return strings.TrimSuffix(p, "/") + ".png", nil
+	case "sfxico":
+		return strings.TrimSuffix(p, "/") + ".ico", nil
+	case "sublogo":
+		return strings.TrimSuffix(p, "/") + "/logo.png", nil
+	case "subhealth":
+		return strings.TrimSuffix(p, "/") + "/health", nil
 	case "sub":
 		return strings.TrimSuffix(p, "/") + "/extra", nil
 	}
@@ -399,7 +408,7 @@ func TestZZVHttpApi(t *testing.T) {
 		}
 	}()
 	classes := map[string]int{}
-	bad, drift, actions, redirects := 0, 0, 0, 0
+	bad, drift, actions, redirects, sequences := 0, 0, 0, 0, 0
 	for i, v := range vecs {
 		c := v.C
 		target, err := zzvSpell(c)
@@ -407,6 +416,20 @@ func TestZZVHttpApi(t *testing.T) {
 			t.Fatalf("case %d: %v", i, err)
 		}
 		srv := get(c)
+		if v.Prime != nil {
+			// request sequence: a fresh server first receives the priming request
+			fresh, err := zzvNewSrv(c.Tok, c.Fl, string(h), wire)
+			if err != nil {
+				t.Fatal(err)
+			}
+			srv = fresh
+			pt, err := zzvSpell(*v.Prime)
+			if err != nil {
+				t.Fatalf("case %d: %v", i, err)
+			}
+			srv.serve(zzvRaw(v.Prime.M, pt, v.Prime.P, false))
+			sequences++
+		}
 		srv.prov.take()
 		raw := zzvRaw(c.M, target, c.P, c.V == "query")
 		first := srv.serve(raw)
@@ -427,6 +450,9 @@ func TestZZVHttpApi(t *testing.T) {
 			redirects++
 		}
 		calls := srv.prov.take()
+		if v.Prime != nil && srv.addr != "" {
+			srv.s.Stop()
+		}
 		served := c.Grp == "pprof" && last.status == 200 // pprof has no provider: a served profile is its action
 		if len(calls) > 0 || served {
 			actions++
@@ -472,7 +498,7 @@ func TestZZVHttpApi(t *testing.T) {
 		if len(why) > 0 {
 			bad++
 			if bad <= 40 {
-				zzvEmit("violation", map[string]any{"i": i, "case": c, "request": raw, "why": why, "status": first.status,
+				zzvEmit("violation", map[string]any{"i": i, "case": c, "prime": v.Prime, "request": raw, "why": why, "status": first.status,
 					"final": last.status, "calls": zzvCallNames(calls), "body": first.body})
 			}
 			continue
@@ -483,11 +509,11 @@ func TestZZVHttpApi(t *testing.T) {
 		if !okImpl || !okFinal {
 			drift++
 			if drift <= 20 {
-				zzvEmit("drift", map[string]any{"i": i, "case": c, "request": raw, "impl": v.Impl, "final": v.Final, "status": first.status,
+				zzvEmit("drift", map[string]any{"i": i, "case": c, "prime": v.Prime, "request": raw, "impl": v.Impl, "final": v.Final, "status": first.status,
 					"last": last.status, "calls": zzvCallNames(calls)})
 			}
 		}
 	}
 	zzvEmit("summary", map[string]any{"cases": len(vecs), "violations": bad, "drift": drift, "with_action": actions,
-		"redirected": redirects, "classes": classes, "servers": len(srvs), "wire": wire})
+		"redirected": redirects, "classes": classes, "servers": len(srvs), "wire": wire, "sequences": sequences})
 }
